@@ -232,7 +232,15 @@ def default_factory_nodes(chk: Check) -> List[Tuple[str, str, Any, int]]:
                                 ast.fix_missing_locations(built)
                                 out.append((cls, n, F.resolve_expr(ci.module, v.args[0]), d.lineno, built))
                             else:
-                                out.append((cls, n, F.resolve_expr(ci.module, v), d.lineno, v))
+                                r_ = F.resolve_expr(ci.module, v)
+                                fn_ = F.functions.get(r_[1]) if r_[0] == 'fn' else None
+                                body_ = [st for st in fn_.node.body if not (isinstance(st, ast.Expr) and isinstance(st.value, ast.Constant))] \
+                                    if fn_ is not None and isinstance(fn_.node, ast.FunctionDef) and not fn_.node.args.args else []
+                                if len(body_) == 1 and isinstance(body_[0], ast.Return) and isinstance(body_[0].value, ast.Call):
+                                    # default_factory=_omitted with `def _omitted(): return ValueOp(None)`: a named lambda
+                                    out.append((cls, n, F.resolve_expr(fn_.module, body_[0].value.func), d.lineno, body_[0].value))
+                                else:
+                                    out.append((cls, n, r_, d.lineno, v))
     return out
 
 
@@ -303,7 +311,9 @@ def call_role(chk: Check) -> Tuple[str, str, str]:
         if t.raises is None and isinstance(t.result, tuple) and t.result[0] == 'new':
             cls, flds = t.result[1], t.result[2]
             nf = [n for n, v in flds if isinstance(v, tuple) and v[:2] == ('tok', '1')]
-            af = [n for n, v in flds if isinstance(v, tuple) and v[:1] == ('symlist',)]
+            af = [n for n, v in flds if isinstance(v, tuple) and (v[:1] == ('symlist',) or (
+                v[:1] == ('list',) and len(v) == 2 and isinstance(v[1], tuple) and v[1][:1] == ('star',)
+                and isinstance(v[1][1], tuple) and v[1][1][:1] == ('symlist',)))]      # args=p[3] or args=[*p[3]] / list(args)
             if nf and af:
                 F._call_role = (cls, nf[0], af[0])  # type: ignore
                 return F._call_role
@@ -570,8 +580,8 @@ def builds_message(e) -> bool:
     if e.kind != 'call':
         return False
     f = freeze(e.func)
-    if isinstance(f, tuple) and f[:2] == ('ref', 'builtin') and f[2] in ('str', 'repr', 'format'):
-        return True
+    if isinstance(f, tuple) and f[:2] == ('ref', 'builtin') and f[2] in ('str', 'repr', 'format', 'type', 'len', 'id'):
+        return True         # (type(x) / len(x): what a message or a log line says about a value)
     if isinstance(f, tuple) and f and f[0] == 'attr' and f[2] in ('format', 'join', 'format_map') and isinstance(f[1], tuple) \
             and f[1][:1] == ('const',) and isinstance(f[1][1], str):
         return True
@@ -676,3 +686,151 @@ def memo_wrapped(F, q: str):
                 return ('fn', q + '.<lambda>')
             return F.resolve_expr(m_, v_.args[0])
     return None
+
+
+def is_module_logger(F, q: str) -> bool:
+    """NAME = logging.getLogger(...) at module level, assigned once."""
+    import ast as _ast
+    mod_, _, var_ = q.rpartition('.')
+    m_ = F.modules.get(mod_)
+    vals_ = m_.assigns.get(var_, []) if m_ is not None else []
+    if len(vals_) == 1 and isinstance(vals_[0], _ast.Call):
+        r_ = F.resolve_expr(m_, vals_[0].func)
+        return r_ == ('ext', 'logging.getLogger')
+    if m_ is not None and var_ in m_.imports:
+        head, _, last = m_.imports[var_].rpartition('.')
+        return head in F.modules and is_module_logger(F, m_.imports[var_])
+    return False
+
+
+LOGGER_METHODS = ('debug', 'info', 'warning', 'error', 'exception', 'critical', 'log', 'isEnabledFor', 'getEffectiveLevel')
+
+
+def logger_call_nodes(F):
+    """Every AST node inside a call of a method of a module-level logging.Logger (the call itself and its arguments): what is
+    read there goes to the host's diagnostic channel and nowhere else."""
+    import ast as _ast
+    cache = F.__dict__.get('_logger_call_nodes')
+    if cache is not None:
+        return cache
+    out = set()
+    for m in F.modules.values():
+        if '.ply' in m.name:
+            continue
+        for n in _ast.walk(m.tree):
+            if isinstance(n, _ast.Call) and isinstance(n.func, _ast.Attribute) and n.func.attr in LOGGER_METHODS \
+                    and isinstance(n.func.value, (_ast.Name, _ast.Attribute)):
+                try:
+                    r = F.resolve_expr(m, n.func.value)
+                except Exception:
+                    continue
+                if r[0] == 'modvar' and is_module_logger(F, r[1]):
+                    out.update(_ast.walk(n))
+    F.__dict__['_logger_call_nodes'] = out
+    return out
+
+
+def write_only_attrs(F):
+    """Attribute names that code of the package only ever writes (x.a = ..., x.a += ...) and never reads - except where a value is
+    shown to the host: property getters, __repr__, __getstate__, log lines.  Counters and statistics kept on the parser are of
+    this kind: no parse / eval / list_names can depend on what earlier calls left in them."""
+    import ast as _ast
+    cache = F.__dict__.get('_write_only_attrs')
+    if cache is not None:
+        return cache
+    stored, loaded = set(), set()
+    lognodes = logger_call_nodes(F)
+    for m in F.modules.values():
+        if '.ply' in m.name or '.gen' in m.name:
+            continue
+        shown = set()       # nodes inside functions whose result only goes to the host
+        for n in _ast.walk(m.tree):
+            if isinstance(n, (_ast.FunctionDef, _ast.AsyncFunctionDef)):
+                deco = {(_d.id if isinstance(_d, _ast.Name) else getattr(_d, 'attr', None)) for _d in n.decorator_list}
+                if deco & {'property', 'cached_property'} or n.name in ('__repr__', '__str__', '__getstate__', '__reduce__'):
+                    shown.update(_ast.walk(n))
+        for n in _ast.walk(m.tree):
+            if isinstance(n, _ast.Attribute):
+                if isinstance(n.ctx, (_ast.Store, _ast.Del)):
+                    stored.add(n.attr)
+                elif n not in shown and n not in lognodes:
+                    loaded.add(n.attr)
+            elif isinstance(n, _ast.Call) and isinstance(n.func, _ast.Name) and n.func.id in ('getattr', 'hasattr', 'setattr') and len(n.args) >= 2 \
+                    and isinstance(n.args[1], _ast.Constant) and isinstance(n.args[1].value, str):
+                loaded.add(n.args[1].value)
+    out = stored - loaded
+    F.__dict__['_write_only_attrs'] = out
+    return out
+
+
+def statistics_objects(F):
+    """Objects kept in an attribute of `self` that the package only ever writes into: every load of `self.A` (outside property
+    getters / __repr__ / log lines) is the receiver of an attribute store (`self.A.n += 1`) or is bound to a local that is used as
+    such a receiver and nothing else.  Returns {(class qual, A)} and the set of AST nodes that are stores into such objects
+    (targets and the values assigned, so that what flows into a statistic can be recognised)."""
+    import ast as _ast
+    cache = F.__dict__.get('_statistics_objects')
+    if cache is not None:
+        return cache
+    lognodes = logger_call_nodes(F)
+    attrs = {}
+    for cq, ci in F.classes.items():
+        if '.ply' in ci.module.name:
+            continue
+        verdict = {}
+        store_nodes = {}
+        for mn, fn in ci.methods.items():
+            deco = {(_d.id if isinstance(_d, _ast.Name) else getattr(_d, 'attr', None)) for _d in fn.decorator_list}
+            shown = bool(deco & {'property', 'cached_property'}) or mn in ('__repr__', '__str__', '__getstate__', '__reduce__')
+            if not fn.args.args:
+                continue
+            sp = fn.args.args[0].arg
+            parents = {}
+            for n in _ast.walk(fn):
+                for c in _ast.iter_child_nodes(n):
+                    parents[c] = n
+            for n in _ast.walk(fn):
+                if not (isinstance(n, _ast.Attribute) and isinstance(n.value, _ast.Name) and n.value.id == sp and isinstance(n.ctx, _ast.Load)):
+                    continue
+                a = n.attr
+                if shown or n in lognodes or mn == '__init__':
+                    continue
+                par = parents.get(n)
+                ok = False
+                if isinstance(par, _ast.Attribute) and par.value is n and isinstance(par.ctx, _ast.Store):
+                    ok = True
+                    store_nodes.setdefault(a, set()).add(par)
+                elif isinstance(par, _ast.Assign) and par.value is n and len(par.targets) == 1 and isinstance(par.targets[0], _ast.Name):
+                    local = par.targets[0].id
+                    uses = [x for x in _ast.walk(fn) if isinstance(x, _ast.Name) and x.id == local and x is not par.targets[0]]
+
+                    def on_local(t):
+                        return isinstance(t, _ast.Attribute) and isinstance(t.value, _ast.Name) and t.value.id == local
+
+                    def stmt_ok(st):
+                        # local.n += v / local.n = v, or `if <test>: <such statements>` (a high-water mark compares with its own field)
+                        if isinstance(st, _ast.AugAssign):
+                            return on_local(st.target)
+                        if isinstance(st, _ast.Assign):
+                            return all(on_local(t) for t in st.targets)
+                        if isinstance(st, _ast.If):
+                            return all(stmt_ok(b) for b in st.body + st.orelse)
+                        return False
+
+                    def stmt_of(x):
+                        while x in parents and not isinstance(x, _ast.stmt):
+                            x = parents[x]
+                        # climb through if-statements that only update the statistic
+                        while isinstance(parents.get(x), _ast.If) and stmt_ok(parents[x]):
+                            x = parents[x]
+                        return x
+                    ok = bool(uses) and all(stmt_ok(stmt_of(x)) for x in uses)
+                    if ok:
+                        store_nodes.setdefault(a, set()).update(parents[x] for x in uses if isinstance(parents.get(x), _ast.Attribute)
+                                                                and isinstance(parents[x].ctx, _ast.Store))
+                verdict[a] = verdict.get(a, True) and ok
+        for a, ok in verdict.items():
+            if ok:
+                attrs[(cq, a)] = store_nodes.get(a, set())
+    F.__dict__['_statistics_objects'] = attrs
+    return attrs
